@@ -57,6 +57,14 @@ def draw_table(r, form, delim=None, simple=False, strsafe=False, nrows=None, fie
         n = 2 ** max(0, k)
         n += wpick(r, [(0, 6), (1, 1), (-1, 1)]) if n > 2 else 0
         return {"fields": fields, "nrows": n, "dseed": r.randrange(1 << 30)}
+    if fields is None and nrows is None and form == "txt" and chance(r, 0.012):
+        # very long text rows (a 2-d sub-array column of a few thousand numbers: 20 .. 120 k characters per row),
+        # longer than any line buffer a reader may use
+        k = r.randrange(40, 72)
+        fields = [{"n": "img", "t": pick(r, ["f8", "f8", "i8", "f4"]), "s": [k, k], "o": pick(r, ["<", ">"]), "p": pick(r, ["wide", "simple"])}]
+        if chance(r, 0.5):
+            fields.insert(r.randrange(0, 2), {"n": "id", "t": "i4", "s": [], "o": fields[0]["o"], "p": "simple"})
+        return {"fields": fields, "nrows": r.randrange(2, 7), "dseed": r.randrange(1 << 30)}
     if fields is None:
         fields = T.draw_fields(r, form, simple=simple)
         if strsafe:
@@ -185,7 +193,9 @@ def draw_selection(r, fields, n, kind, form_sfile):
     rk = wpick(r, [("none", 2), ("scalar", 2), ("list", 4), ("slice", 5)])
     rows = None
     if rk == "scalar":
-        rows = {"t": "scalar", "v": r.randrange(-n, n)}
+        rows = {"t": "scalar", "v": r.randrange(-n, n), "st": pick(r, ["py", "py", "py", "i8", "i4", "i2", "i1", "u1", "u2"])}
+        if chance(r, 0.3):
+            rows["v"] = pick(r, [-1, -n, n - 1, 0] + ([-2] if n >= 2 else []))   # the last / the first row, from either end
     elif rk == "list":
         k = wpick(r, [(1, 1), (2, 1), (r.randrange(1, n + 1), 3), (r.randrange(1, 2 * n + 1), 1)])
         v = [r.randrange(0, n) for _ in range(k)]
@@ -344,7 +354,16 @@ def caller_history(r, pfx, avoid):
                     # the caller tries the very same (rejected) table once more
                     ops.append(dict(bad))
             elif x < 0.70 and s["hmode"] == "r+" and s["fields"] is not None:
-                ops.append({"k": "hread", "h": s["h"], "sel": {"style": pick(r, ["read_kw", "getitem_rows"])}})
+                sel = {"style": pick(r, ["read_kw", "getitem_rows"])}
+                if chance(r, 0.5):
+                    # a PARTIAL read through the writing handle (leaves the cursor in the middle of the data)
+                    if chance(r, 0.6):
+                        a0 = r.randrange(0, 3)
+                        sel = {"style": "getitem_rows", "rows": {"t": "slice", "v": [a0, a0 + r.randrange(1, 4), pick(r, [None, 1, 2])]}}
+                    else:
+                        sel = {"style": pick(r, ["read_kw", "getitem_rows"]),
+                               "rows": {"t": "list", "v": [0] if chance(r, 0.5) else [0, 0], "c": "list", "dt": "i8"}}
+                ops.append({"k": "hread", "h": s["h"], "sel": sel})
             else:
                 ops.append({"k": "close", "h": s["h"]})
                 s["h"] = None
@@ -523,7 +542,10 @@ def plan(S, prop, mode, tier, avoid):
             flat.append(callers[c][idx[c]])
             idx[c] += 1
         live = [c for c in live if idx[c] < len(callers[c])]
-    return {"cfg": {"callers": ncallers}, "ops": flat}
+    # how the caller spells file names: absolute (usual), or with an environment variable / a tilde that esutil
+    # expands itself
+    pathform = wpick(cfg, [("abs", 8), ("var", 1), ("home", 1)])
+    return {"cfg": {"callers": ncallers, "pathform": pathform}, "ops": flat}
 
 
 def describe(script):
@@ -541,6 +563,8 @@ def _with_op(script, i, op):
 
 def simplify(script):
     ops = script["ops"]
+    if script.get("cfg", {}).get("pathform", "abs") != "abs":
+        yield dict(script, cfg=dict(script["cfg"], pathform="abs"))
     # all callers -> one
     if any(op.get("c", 0) != 0 for op in ops):
         c = dict(script)
